@@ -158,10 +158,11 @@ def mintVB (sender rcpt : Addr) (c : ClassId) (t : TokenId) (uri : String) (data
   validAddr sender && validAddr rcpt && !isIBCDenom c && validDenomId c && validUri uri && dataOk && validTokenId t
 def editVB (sender : Addr) (c : ClassId) (t : TokenId) (uri : String) (dataOk : Bool) : Bool :=
   validAddr sender && validDenomId c && validUri uri && dataOk && validTokenId t
-/-- `MsgTransferNFT.ValidateBasic` has no URI length rule: `_uri` is not looked at, so a transfer
-with changes can store a URI that `MsgMintNFT` / `MsgEditNFT` (and `ValidateGenesis`) refuse -/
-def transferVB (sender rcpt : Addr) (c : ClassId) (t : TokenId) (_uri : String) (dataOk : Bool) : Bool :=
-  validDenomId c && validAddr sender && validAddr rcpt && dataOk && validTokenId t
+/-- `MsgTransferNFT.ValidateBasic`, with the URI length rule added by /repo commit 878dbc3
+(finding F-gen-4: before it, a transfer with changes could store a URI that `MsgMintNFT`,
+`MsgEditNFT` and `ValidateGenesis` refuse) -/
+def transferVB (sender rcpt : Addr) (c : ClassId) (t : TokenId) (uri : String) (dataOk : Bool) : Bool :=
+  validDenomId c && validAddr sender && validAddr rcpt && validUri uri && dataOk && validTokenId t
 def burnVB (sender : Addr) (c : ClassId) (t : TokenId) : Bool :=
   validAddr sender && validDenomId c && validTokenId t
 def transferDenomVB (sender rcpt : Addr) (c : ClassId) : Bool :=
